@@ -113,6 +113,26 @@ Proof.
   split; [reflexivity|]. split; vm_compute; reflexivity.
 Qed.
 
+(** "Returns the same value", over the whole of every type: every integer [v], printed in
+    decimal ([show_int], whose output denotes [v] by [C12_dec_denotes]), parses back to [v]
+    when [v] is a value of the type and is rejected otherwise — for all widths at once. *)
+Theorem C12_dec_denotes : forall n, 0 <= n ->
+  dec n <> [] /\ Forall digit (dec n) /\ digits_val (dec n) = n.
+Proof. exact dec_spec. Qed.
+
+Theorem C12_print_parse_roundtrip : forall w, 4 <= w -> forall sg v,
+  parse_whole_m w sg (show_int v) = (if in_range w sg v then Some v else None).
+Proof. exact parse_show_int. Qed.
+
+Example C12_show_int_example :
+  show_int (-128) = [45; 49; 50; 56] /\ show_int 0 = [48] /\ show_int 65535 = [54; 53; 53; 51; 53].
+Proof. vm_compute. repeat split. Qed.
+
+(** the width bound is needed: in a 3-bit type the digit 9 itself wraps *)
+Theorem C12_width_bound_needed :
+  parse_whole_m 3 false [57] = Some 1 /\ std_parse 3 false [57] = None.
+Proof. exact width_bound_needed. Qed.
+
 (** bool: prefix parsing accepts exactly the strings starting with "true" / "false",
     whole-string parsing is [str::parse::<bool>], errors consume nothing. *)
 Theorem C12_parse_bool_prefix : forall s b rest,
@@ -148,6 +168,9 @@ Print Assumptions C12_unsigned_rejects_minus.
 Print Assumptions C12_signed_min_ok.
 Print Assumptions C12_signed_below_min_rejected.
 Print Assumptions C12_minus_zero.
+Print Assumptions C12_dec_denotes.
+Print Assumptions C12_print_parse_roundtrip.
+Print Assumptions C12_width_bound_needed.
 Print Assumptions C12_parse_bool_prefix.
 Print Assumptions C12_parse_bool_err_iff.
 Print Assumptions C12_parse_bool_eq_std.
